@@ -22,7 +22,8 @@ Added while testing against seeded changes: Also: where an updater writes the sh
 sha record on every continuation; per-write-group state reset by commit_write_group is reset by abort_write_group;
 lookup_git_sha is multi-valued in every backend; both forms of an object handed to add_object (object, (type, sha)
 reference) reach the kind dispatch; in a backend with a committed and a pending index store every method that looks
-keys up in one looks them up in the other (transitively through helpers of the class).
+keys up in one looks them up in the other (transitively through helpers of the class); the digest that names the file
+a write group produces is fed exactly where a node is added to the pending store.
 Does not decide: equality of the answers themselves (values stored by each backend).
 """
 ASSUMPTIONS = ["backends are compared through their class definitions; registration in the format registry is not part of the rule"]
@@ -138,6 +139,32 @@ def run(ctx):
         ctx.require(len(readers) >= 4, f"{rel}:{q}: only {len(readers)} methods read the index stores (hand-confirmed: >= 8)")
         for m in readers:
             ctx.check("stores-read-together", f"{rel}:{q}.{m}", reads[m] == {"committed", "pending"}, f"{q}.{m} consults the committed indices and the pending builder", construct=f"{q}.{m} reads only the {sorted(reads[m])} store", message=f"{q}.{m} looks keys up only in the {sorted(reads[m])[0]} store of the index backend: " + ("an existence check that ignores the committed indices writes a key again (a second, possibly different value for the same key), and a query that ignores them forgets everything from earlier write groups" if reads[m] == {"pending"} else "entries added in the open write group are invisible to it although the sibling queries (and the other backends) already answer for them"))
+        # the file a write group produces is named by a digest: that digest covers exactly what is added to the
+        # pending store.  A digest fed from anything else (everything offered, added or not) repeats when known objects
+        # are offered again, and the earlier file is overwritten by the new, emptier one.
+        pend = [a for a, k in stores.items() if k == "pending"]
+        digests = set()
+        for n in ast.walk(cls):
+            if isinstance(n, ast.Assign) and isinstance(n.targets[0], ast.Attribute) and norm(n.targets[0].value) == "self" and isinstance(n.value, ast.Call) and norm(n.value.func).startswith("hashlib."):
+                digests.add(n.targets[0].attr)
+        if digests:
+            from ..cfg import build_cfg
+
+            n_upd = n_add = 0
+            for m, f in meths.items():
+                g = build_cfg(f)
+                gx = g.without_exc_edges()
+                upd = [nd.id for nd in gx.nodes for c in nd.calls() if call_attr(c) == "update" and (call_recv(c) or "")[5:] in digests and (call_recv(c) or "").startswith("self.")]
+                add = [nd.id for nd in gx.nodes for c in nd.calls() if call_attr(c) == "add_node" and (call_recv(c) or "")[5:] in pend and (call_recv(c) or "").startswith("self.")]
+                n_upd += len(upd)
+                n_add += len(add)
+                for u_ in upd:
+                    ok = bool(add) and (gx.always_before(add, [u_]) or gx.exit not in gx.reach([u_], avoid=set(add)))
+                    ctx.check("file-name-covers-content", f"{rel}:{q}.{m}", ok, f"{q}.{m}: the name digest is fed only together with a node added to the pending index", construct=gx.nodes[u_].text(), message=f"{q}.{m} feeds the digest that names the new index file at `{gx.nodes[u_].text()[:60]}` without adding a node on that path: offering already-known objects again reproduces the name of an earlier file, which is then overwritten by an index that lacks its entries — after re-opening, this backend has forgotten revisions the others still know")
+                for a_ in add:
+                    ok = bool(upd) and (gx.always_before(upd, [a_]) or gx.exit not in gx.reach([a_], avoid=set(upd)))
+                    ctx.check("file-name-covers-content", f"{rel}:{q}.{m}", ok, f"{q}.{m}: every node added to the pending index is folded into the file name", construct=gx.nodes[a_].text(), message=f"{q}.{m} adds a node at `{gx.nodes[a_].text()[:60]}` that does not enter the digest naming the file: two write groups with different content can produce the same file name and the second overwrites the first")
+            ctx.require(n_upd >= 1 and n_add >= 1, f"{rel}:{q}: digest updates ({n_upd}) / pending adds ({n_add}) not found")
     ctx.require(n_two >= 1, "no backend with a committed and a pending index store found (hand-confirmed: IndexGitShaMap)")
     ups = _subclasses(repo, "CacheUpdater")
     ctx.require(len(ups) >= 4, f"only {len(ups)} CacheUpdater classes found (hand-confirmed: 4)")
@@ -189,10 +216,12 @@ def run(ctx):
 
 
 MUTANTS = [
-    Mutant("index existence check asks only the pending builder", CF, "        try:\n            self._get_entry(key)\n        except KeyError:\n            self._builder.add_node(key, value)\n            return False\n        else:\n            return True\n", "        if next(self._builder.iter_entries([key]), None) is not None:\n            return True\n        self._builder.add_node(key, value)\n        return False\n", expect="stores-read-together"),
+    Mutant("index file named after everything offered", CF, "        if hexsha is not None:\n            if type == b\"commit\":\n", "        if hexsha is not None:\n            self._name.update(hexsha)\n            if type == b\"commit\":\n", expect="file-name-covers-content"),
+    Mutant("added nodes no longer enter the file name", CF, "            self._name.update(b\"\\0\".join(key) + b\"\\0\" + value + b\"\\n\")\n", "", expect="file-name-covers-content"),
+    Mutant("index existence check asks only the pending builder", CF, "        try:\n            self._get_entry(key)\n        except KeyError:\n            self._builder.add_node(key, value)\n", "        try:\n            if next(self._builder.iter_entries([key]), None) is None:\n                raise KeyError(key)\n        except KeyError:\n            self._builder.add_node(key, value)\n", expect="stores-read-together"),
     Mutant("missing_revisions forgets the open write group", CF, "        if self._builder is not None:\n            # Revisions added in the open write group are known as well.\n            for _, key, _value in self._builder.iter_entries(keys):\n                missing_revids.discard(key[1])\n", "", expect="stores-read-together", where="missing_revisions"),
     Mutant("sqlite updater ignores object references", CF, "        if isinstance(obj, tuple):\n            (type_name, hexsha) = obj\n        else:\n            type_name = obj.type_name.decode(\"ascii\")\n            hexsha = obj.id\n        if not isinstance(hexsha, bytes):\n            raise TypeError(hexsha)\n        if type_name == \"commit\":\n            self._commit = obj\n            if not isinstance(bzr_key_data, dict):\n                raise TypeError(bzr_key_data)\n            self._testament3_sha1", "        if isinstance(obj, tuple):\n            return\n        else:\n            type_name = obj.type_name.decode(\"ascii\")\n            hexsha = obj.id\n        if not isinstance(hexsha, bytes):\n            raise TypeError(hexsha)\n        if type_name == \"commit\":\n            self._commit = obj\n            if not isinstance(bzr_key_data, dict):\n                raise TypeError(bzr_key_data)\n            self._testament3_sha1", expect="updater-reference-form-dispatched"),
-    Mutant("neutral: existence check written with a membership helper", CF, "        try:\n            self._get_entry(key)\n        except KeyError:\n            self._builder.add_node(key, value)\n            return False\n        else:\n            return True\n", "        try:\n            self._get_entry(key)\n        except KeyError:\n            pass\n        else:\n            return True\n        self._builder.add_node(key, value)\n        return False\n", neutral=True),
+    Mutant("neutral: existence check keeps the entry in a local", CF, "        try:\n            self._get_entry(key)\n        except KeyError:\n            self._builder.add_node(key, value)\n", "        try:\n            _known = self._get_entry(key)\n        except KeyError:\n            self._builder.add_node(key, value)\n", neutral=True),
     Mutant("index updater skips the blob key for known content", CF, "            self.cache.idmap._add_git_sha(hexsha, b\"blob\", bzr_key_data)\n            self.cache.idmap._add_node(", "            self.cache.idmap._add_git_sha(hexsha, b\"blob\", bzr_key_data)\n            if bzr_key_data is None:\n                return\n            self.cache.idmap._add_node(", expect="updater-both-directions"),
     Mutant("per-group state cleared on commit only", CF, "        self._index.insert_index(0, index)\n        self._builder = None\n        self._name = None\n", "        self._index.insert_index(0, index)\n        self._builder = None\n        self._name = None\n        self._seen = set()\n", expect="write-group-reset-parity"),
     Mutant("neutral: helper method added to a backend", CF, "class IndexGitShaMap(GitShaMap):", "class IndexGitShaMap(GitShaMap):\n    def _placeholder(self):\n        pass\n", neutral=True),
